@@ -289,3 +289,18 @@ Example C01_literal_left_example :
   nav_allf pf rm doc p1 ([], doc) = nav_allf pf rm doc p2 ([], doc) /\
   map snd (nav_allf pf rm doc p1 ([], doc)) = [VObj [("a", VNum (num_of_Z 3))]; VObj [("a", VNum (num_of_Z 2))]]%string.
 Proof. cbv zeta. do 5 (split; [vm_compute; reflexivity|]). vm_compute. reflexivity. Qed.
+
+(* string literals with backslashes (LitParse.v: `sbody_ok`): `\'` and `\\` are escapes of the grammar; a backslash before any
+   other character is a character for the grammar and is dropped afterwards (with the character kept) by the unescaper:
+   `$[?(@.a=='x\'y')]` compares with x'y, `$[?(@.a=="a\nb")]` with anb *)
+Example C01_escaped_literal_example :
+  let pf := fun s : string => @None num in
+  let rm := fun _ _ : string => false in
+  let doc := VArr [VObj [("a", VStr "x'y")]; VObj [("a", VStr "anb")]; VObj [("a", VStr "x\'y")]; VObj [("a", VStr "a\nb")]]%string in
+  let p1 := [FQ [[BL [RPlain (SDot [97%N])] false (LStr 39 [120; 92; 39; 121]%N)]]] in
+  let p2 := [FQ [[BL [RPlain (SDot [97%N])] false (LStr 34 [97; 92; 110; 98]%N)]]] in
+  text_of (fchain_path p1) = "$[?(@.a=='x\'y')]"%string /\ text_of (fchain_path p2) = "$[?(@.a==""a\nb"")]"%string /\
+  forallb fstep_ok p1 = true /\ forallb fstep_ok p2 = true /\
+  map snd (nav_allf pf rm doc p1 ([], doc)) = [VObj [("a", VStr "x'y")]]%string /\
+  map snd (nav_allf pf rm doc p2 ([], doc)) = [VObj [("a", VStr "anb")]]%string.
+Proof. cbv zeta. do 5 (split; [vm_compute; reflexivity|]). vm_compute. reflexivity. Qed.
